@@ -22,9 +22,8 @@ struct Worker {
     rx: mpsc::Receiver<String>,
 }
 
-fn spawn_worker(mode: &str, mem_kb: u64) -> Worker {
-    let exe = std::env::current_exe().expect("current exe");
-    let cmd = format!("ulimit -v {mem_kb}; exec \"{}\" worker {mode}", exe.display());
+fn spawn_worker(exe: &str, mode: &str, mem_kb: u64) -> Worker {
+    let cmd = format!("ulimit -v {mem_kb}; exec \"{exe}\" worker {mode}");
     let mut child = Command::new("sh")
         .arg("-c")
         .arg(cmd)
@@ -54,12 +53,17 @@ fn spawn_worker(mode: &str, mem_kb: u64) -> Worker {
 
 /// Sends every input to a worker and collects one answer per input (in input order).
 pub fn run_pool(mode: &str, inputs: &[String], n_workers: usize, wall: Duration, mem_kb: u64) -> Vec<WorkerAnswer> {
+    let exe = std::env::current_exe().expect("current exe").display().to_string();
+    run_pool_exe(&exe, mode, inputs, n_workers, wall, mem_kb)
+}
+
+pub fn run_pool_exe(exe: &str, mode: &str, inputs: &[String], n_workers: usize, wall: Duration, mem_kb: u64) -> Vec<WorkerAnswer> {
     let next = std::sync::atomic::AtomicUsize::new(0);
     let results: std::sync::Mutex<Vec<(usize, WorkerAnswer)>> = std::sync::Mutex::new(Vec::new());
     std::thread::scope(|s| {
         for _ in 0..n_workers.min(inputs.len().max(1)) {
             s.spawn(|| {
-                let mut w = spawn_worker(mode, mem_kb);
+                let mut w = spawn_worker(exe, mode, mem_kb);
                 loop {
                     let i = next.fetch_add(1, std::sync::atomic::Ordering::SeqCst);
                     if i >= inputs.len() {
@@ -84,7 +88,7 @@ pub fn run_pool(mode: &str, inputs: &[String], n_workers: usize, wall: Duration,
                     if !matches!(ans, WorkerAnswer::Line(_)) {
                         let _ = w.child.kill();
                         let _ = w.child.wait();
-                        w = spawn_worker(mode, mem_kb);
+                        w = spawn_worker(exe, mode, mem_kb);
                     }
                     results.lock().unwrap().push((i, ans));
                 }
